@@ -93,6 +93,16 @@ def _builtin_value(name):
     return _BUILTIN_VALUES[name]
 
 
+def _ior(a, b):
+    a |= b          # in place for dicts / sets, like operator.ior
+    return a
+
+
+def _iadd(a, b):
+    a += b
+    return a
+
+
 def _opfn(fn):
     fn._fde_ok = True
     return fn
@@ -101,7 +111,8 @@ def _opfn(fn):
 # operator.* functions that are exact on concrete values (the evaluator refuses abstract operands through the TypeError of the stand-in)
 _OPERATOR_FNS = {'contains': _opfn(lambda a, b: b in a), 'getitem': _opfn(lambda a, b: a[b]), 'eq': _opfn(lambda a, b: a == b), 'ne': _opfn(lambda a, b: a != b),
                  'not_': _opfn(lambda a: not a), 'truth': _opfn(lambda a: bool(a)), 'is_': _opfn(lambda a, b: a is b), 'is_not': _opfn(lambda a, b: a is not b),
-                 'add': _opfn(lambda a, b: a + b), 'lt': _opfn(lambda a, b: a < b), 'le': _opfn(lambda a, b: a <= b), 'gt': _opfn(lambda a, b: a > b), 'ge': _opfn(lambda a, b: a >= b)}
+                 'add': _opfn(lambda a, b: a + b), 'sub': _opfn(lambda a, b: a - b), 'or_': _opfn(lambda a, b: a | b), 'and_': _opfn(lambda a, b: a & b),
+                 'ior': _opfn(lambda a, b: _ior(a, b)), 'iadd': _opfn(lambda a, b: _iadd(a, b)), 'setitem': _opfn(lambda a, b, c: a.__setitem__(b, c)), 'lt': _opfn(lambda a, b: a < b), 'le': _opfn(lambda a, b: a <= b), 'gt': _opfn(lambda a, b: a > b), 'ge': _opfn(lambda a, b: a >= b)}
 
 
 # pure stdlib helpers that only rearrange their (concrete) arguments; results are lists (consumers iterate them once)
@@ -954,6 +965,9 @@ class FDE:
             if ok:
                 return v
             base = self._ev(e.value, env, fi)
+            if isinstance(base, tuple) and base and base[0] == 'class' and e.attr == '_fields' and base[1] in self.repo.classes \
+                    and self.repo.classes[base[1]].module.namedtuple_fields(base[1]) is not None:
+                return tuple(self.repo.classes[base[1]].module.namedtuple_fields(base[1]))
             if isinstance(base, tuple) and base and base[0] == 'class' and e.attr in ('__name__', '__qualname__'):
                 return base[1].split('.')[-1] if e.attr == '__name__' else base[1]
             if isinstance(base, tuple) and base and base[0] == 'class':
@@ -1459,6 +1473,12 @@ class FDE:
                         if len(args) > 2:
                             return args[2]
                         raise
+                if isinstance(o, tuple) and hasattr(type(o), '_fields') and isinstance(a, str):
+                    if a in type(o)._fields:
+                        return getattr(o, a)
+                    if len(args) > 2:
+                        return args[2]
+                    raise Raised('AttributeError')
                 if (o is None or isinstance(o, (str, int, float, bytes, list, dict, set))) and isinstance(a, str):
                     if hasattr(o, a) and not callable(getattr(o, a)):
                         return getattr(o, a)
